@@ -1,5 +1,6 @@
 From LiquidVerif Require Import Prelude PyPrims LoopSlice.
 From Coq Require Import ZifyBool.
+Local Open Scope list_scope.
 
 (* ------------------------------------------------------------------ *)
 (* the reference loop is a clamped slice                               *)
@@ -153,58 +154,64 @@ Fixpoint printed (items : list str) (k n : Z) : str :=
   | x :: r => print_for x (forloop_at k n) ++ printed r (k + 1) n
   end.
 
-Lemma for_iter_print run fs n :
-  (forall x k st, run ({| f_kind := KFor; f_item := x; f_h := forloop_at k n; f_tr := dummy_tr; f_ncols := 0 |} :: fs) st
+Lemma for_iter_print run fs name n :
+  (forall x k st, run ({| f_kind := KFor; f_item := x; f_h := forloop_at k n; f_tr := dummy_tr; f_ncols := 0; f_name := name |} :: fs) st
                   = Ok (print_for x (forloop_at k n), st, SNormal)) ->
-  forall items k st acc, for_iter run fs n items k st acc = Ok (acc ++ printed items k n, st, SNormal).
+  forall items k st acc, for_iter run fs name n items k st acc = Ok (acc ++ printed items k n, st, SNormal).
 Proof.
   intros Hrun. induction items as [|x r IH]; intros k st acc.
   - simpl. rewrite app_nil_r. reflexivity.
-  - cbn [printed for_iter]. rewrite Hrun. cbn [bind]. fold (for_iter run fs n).
+  - cbn [printed for_iter]. rewrite Hrun. cbn [bind]. fold (for_iter run fs name n).
     rewrite IH. rewrite <- app_assoc. reflexivity.
 Qed.
 
-Lemma exec_print fuel f fs st :
+Lemma exec_print sq dis fuel f fs st :
   f_kind f = KFor ->
-  exec (S (S fuel)) (f :: fs) st [BPrint] = Ok (print_for (f_item f) (f_h f), st, SNormal).
+  exec sq dis (S (S fuel)) (f :: fs) st [BPrint] = Ok (print_for (f_item f) (f_h f), st, SNormal).
 Proof. intro Hk. cbn [exec exec_leaf bind]. rewrite Hk. rewrite app_nil_r. reflexivity. Qed.
 
-Theorem for_prints_visited fuel (l : loopx) els st seg n st1 :
-  eval_loop l st = Ok (seg, n, st1) -> n <> 0%Z ->
-  exec (S (S (S (S fuel)))) [] st [BFor l [BPrint] els] = Ok (printed seg 0 (zlen seg), st1, SNormal).
+Lemma eval_loop_length sq (l : loopx) st seg n st1 :
+  eval_loop sq l st = Ok (seg, n, st1) -> n = zlen seg.
+Proof.
+  intro He.
+  unfold eval_loop in He.
+  destruct (match llimit l with None => Ok None | Some a => do z <- to_int_arg a; Ok (Some z) end) as [lim| |]; try discriminate.
+  cbn [bind] in He.
+  destruct (match loffset l with OffNone => Ok (None, false) | OffContinue => Ok (None, true)
+            | OffArg a => do z <- to_int_arg a; Ok (Some z, false) end) as [offc| |]; try discriminate.
+  cbn [bind] in He.
+  pose proof (length_is_visited_count (iter_items sq (liter l)) (sget (lkey l) st) lim (fst offc) (snd offc) (lrev l)) as H.
+  destruct (visit (iter_items sq (liter l)) (sget (lkey l) st) lim (fst offc) (snd offc) (lrev l)) as [[sg ln] stp].
+  cbn in H. injection He as E1 E2 E3. rewrite <- E1, <- E2. exact H.
+Qed.
+
+Theorem for_prints_visited sq dis fuel (l : loopx) els fs st seg n st1 :
+  eval_loop sq l st = Ok (seg, n, st1) -> n <> 0%Z ->
+  exec sq dis (S (S (S (S fuel)))) fs st [BFor l [BPrint] els] = Ok (printed seg 0 (zlen seg), st1, SNormal).
 Proof.
   intros He Hn.
-  assert (Hlen : n = zlen seg).
-  { unfold eval_loop in He.
-    destruct (match llimit l with None => Ok None | Some a => do z <- to_int_arg a; Ok (Some z) end) as [lim| |]; try discriminate.
-    cbn [bind] in He.
-    destruct (match loffset l with OffNone => Ok (None, false) | OffContinue => Ok (None, true)
-              | OffArg a => do z <- to_int_arg a; Ok (Some z, false) end) as [offc| |]; try discriminate.
-    cbn [bind] in He.
-    pose proof (length_is_visited_count (iter_items (liter l)) (sget (lkey l) st) lim (fst offc) (snd offc) (lrev l)) as H.
-    destruct (visit (iter_items (liter l)) (sget (lkey l) st) lim (fst offc) (snd offc) (lrev l)) as [[sg ln] stp].
-    cbn in H. injection He as E1 E2 E3. rewrite <- E1, <- E2. exact H. }
-  change (exec (S (S (S (S fuel)))) [] st [BFor l [BPrint] els]) with
-    (do r <- (do ev <- eval_loop l st;
+  assert (Hlen : n = zlen seg) by (eapply eval_loop_length; exact He).
+  change (exec sq dis (S (S (S (S fuel)))) fs st [BFor l [BPrint] els]) with
+    (do r <- (do ev <- eval_loop sq l st;
               let '(seg, n, st1) := ev in
-              if (n =? 0)%Z then exec (S (S (S fuel))) [] st1 els
-              else for_iter (fun fs' st' => exec (S (S (S fuel))) fs' st' [BPrint]) [] n seg 0%Z st1 []);
+              if (n =? 0)%Z then exec sq dis (S (S (S fuel))) fs st1 els
+              else for_iter (fun fs' st' => exec sq dis (S (S (S fuel))) fs' st' [BPrint]) fs (lname l) n seg 0%Z st1 []);
      let '(out, st', sg) := r in
      match sg with
-     | SNormal => do r2 <- exec (S (S (S fuel))) [] st' [];
+     | SNormal => do r2 <- exec sq dis (S (S (S fuel))) fs st' [];
                   let '(out2, st2, sg2) := r2 in Ok (out ++ out2, st2, sg2)
      | _ => Ok (out, st', sg)
      end).
   rewrite He. cbn [bind].
   destruct (Z.eqb_spec n 0) as [|_]; [contradiction|].
-  rewrite (for_iter_print _ [] n); [|intros x k st0; apply exec_print; reflexivity].
+  rewrite (for_iter_print _ fs (lname l) n); [|intros x k st0; apply exec_print; reflexivity].
   cbn [bind app exec]. rewrite app_nil_r. subst n. reflexivity.
 Qed.
 
-Theorem for_else_when_nothing_visited fuel (l : loopx) body els st seg st1 :
-  eval_loop l st = Ok (seg, 0%Z, st1) ->
-  exec (S (S fuel)) [] st [BFor l body els] =
-  (do r <- exec (S fuel) [] st1 els;
+Theorem for_else_when_nothing_visited sq dis fuel (l : loopx) body els fs st seg st1 :
+  eval_loop sq l st = Ok (seg, 0%Z, st1) ->
+  exec sq dis (S (S fuel)) fs st [BFor l body els] =
+  (do r <- exec sq dis (S fuel) fs st1 els;
    let '(out, st', sg) := r in
    match sg with
    | SNormal => Ok (out ++ [], st', SNormal)
@@ -222,11 +229,12 @@ Lemma tr_invariant c : (0 < c)%Z -> forall k : nat,
 Proof.
   intros Hc. induction k as [|k IH]; cbn zeta.
   - cbn [tr_steps]. unfold tr_step, tr_init. cbn [tr_col tr_index tr_row].
-    destruct (Z.eqb_spec 0 c); [lia|]. cbn [tr_col tr_index tr_row]. repeat split; lia.
+    cbn [Z.add Z.eqb negb andb Z.opp Z.pos_sub]. cbn [tr_col tr_index tr_row]. repeat split; lia.
   - cbn zeta in IH. destruct IH as (Hi & Hcol & Hrow & Hk).
     change (tr_steps c (S (S k)) tr_init) with (tr_step c (tr_steps c (S k) tr_init)).
     set (s := tr_steps c (S k) tr_init) in *.
-    unfold tr_step. destruct (Z.eqb_spec (tr_col s) c) as [E|E]; cbn [tr_col tr_index tr_row].
+    unfold tr_step. replace (tr_index s + 1 =? 0)%Z with false by lia. cbn [negb andb].
+    destruct (Z.eqb_spec (tr_col s) c) as [E|E]; cbn [tr_col tr_index tr_row].
     + repeat split; try lia; rewrite Nat2Z.inj_succ, Hk, E; ring.
     + repeat split; try lia; rewrite Nat2Z.inj_succ, Hk; ring.
 Qed.
@@ -246,3 +254,388 @@ Proof.
   { symmetry. apply (Z.mod_unique_pos _ _ (tr_row s - 1)); [lia|]. rewrite Hk. ring. }
   rewrite Hq, Hr. repeat split; try lia.
 Qed.
+
+(* ------------------------------------------------------------------ *)
+(* tablerow: every cols value that is not positive                     *)
+
+(* cols <= 0 (0, negative, and -- through _int_or_zero -- nil, non-numeric strings, infinity): no column is ever the
+   last one, so all items are in row 1 and the k-th is column k+1 *)
+Theorem tablerow_nonpositive c (k : nat) : (c <= 0)%Z ->
+  tr_steps c (S k) tr_init = {| tr_index := Z.of_nat k; tr_row := 1; tr_col := Z.of_nat k + 1 |}.
+Proof.
+  intro Hc. induction k as [|k IH].
+  - reflexivity.
+  - change (tr_steps c (S (S k)) tr_init) with (tr_step c (tr_steps c (S k) tr_init)). rewrite IH.
+    unfold tr_step. cbn [tr_index tr_col tr_row].
+    replace (Z.of_nat k + 1 =? 0)%Z with false by lia. replace (Z.of_nat k + 1 =? c)%Z with false by lia.
+    cbn [negb andb]. rewrite Nat2Z.inj_succ. f_equal; lia.
+Qed.
+
+(* cols larger than the number of items (huge values included): one row as well *)
+Corollary tablerow_wide c (k : nat) : (Z.of_nat k < c)%Z ->
+  let s := tr_steps c (S k) tr_init in tr_row s = 1%Z /\ tr_col s = (Z.of_nat k + 1)%Z.
+Proof.
+  intro H. destruct (tablerow_structure c k ltac:(lia)) as (_ & Hr & Hcl & _). cbn zeta.
+  rewrite Hr, Hcl. rewrite Z.div_small, Z.mod_small by lia. split; reflexivity.
+Qed.
+
+(* what cols values come to: never an error *)
+Theorem cols_value a : int_or_zero a = Ok (match to_int_arg a with Ok z => z | _ => 0%Z end).
+Proof. unfold int_or_zero, to_int_arg. destruct (to_int a); reflexivity. Qed.
+
+(* ------------------------------------------------------------------ *)
+(* limit / offset values                                               *)
+
+(* floats count by their integer part, booleans as 0/1, numeric strings as their number;
+   nil, other strings and infinities are the Liquid type error, nothing else is *)
+Theorem arg_value a :
+  to_int_arg a =
+  match a with
+  | AInt z | AStrInt z => Ok z
+  | AFloat m e => Ok (Z.quot m (10 ^ Z.of_nat e))
+  | ABool b => Ok (if b then 1 else 0)%Z
+  | ANil | AStrBad | AInf => Err EType
+  end.
+Proof. destruct a; reflexivity. Qed.
+
+(* a loop depends on its limit and offset arguments only through those integer values *)
+Theorem limit_by_value sq k nm it a a' o r st : to_int_arg a = to_int_arg a' ->
+  eval_loop sq {| lkey := k; lname := nm; liter := it; llimit := Some a; loffset := o; lrev := r |} st =
+  eval_loop sq {| lkey := k; lname := nm; liter := it; llimit := Some a'; loffset := o; lrev := r |} st.
+Proof. intro H. unfold eval_loop. cbn [llimit loffset liter lkey lrev]. rewrite H. reflexivity. Qed.
+
+Theorem offset_by_value sq k nm it lim a a' r st : to_int_arg a = to_int_arg a' ->
+  eval_loop sq {| lkey := k; lname := nm; liter := it; llimit := lim; loffset := OffArg a; lrev := r |} st =
+  eval_loop sq {| lkey := k; lname := nm; liter := it; llimit := lim; loffset := OffArg a'; lrev := r |} st.
+Proof. intro H. unfold eval_loop. cbn [llimit loffset liter lkey lrev]. rewrite H. reflexivity. Qed.
+
+(* ------------------------------------------------------------------ *)
+(* strings and hashes as loop sources                                  *)
+
+Theorem string_items_sequence s :
+  iter_items true (ItStr s) = map (fun c => [c]) s /\
+  length (iter_items true (ItStr s)) = length s /\ concat_str (iter_items true (ItStr s)) = s.
+Proof.
+  cbn [iter_items]. repeat split; [apply map_length|].
+  induction s as [|c s IH]; cbn [map concat_str]; [reflexivity|]. rewrite IH. reflexivity.
+Qed.
+
+Theorem string_items_single s :
+  iter_items false (ItStr s) = match s with [] => [] | _ => [s] end.
+Proof. reflexivity. Qed.
+
+Theorem hash_items sq l :
+  iter_items sq (ItDict l) = map (fun kv => fst kv ++ [61%N] ++ Z_to_str (snd kv)) l /\
+  length (iter_items sq (ItDict l)) = length l.
+Proof. cbn [iter_items]. split; [reflexivity|apply map_length]. Qed.
+
+(* ------------------------------------------------------------------ *)
+(* the stored continue position: shared by for and tablerow            *)
+
+Lemma sget_sset k v m : sget k (sset k v m) = v.
+Proof. unfold sset. cbn [sget]. rewrite N.eqb_refl. reflexivity. Qed.
+
+Lemma sget_sset_other k k' v m : k <> k' -> sget k (sset k' v m) = sget k m.
+Proof. intro H. unfold sset. cbn [sget]. destruct (N.eqb_spec k k'); [contradiction|reflexivity]. Qed.
+
+(* every loop expression -- the for tag and the tablerow tag evaluate the same one -- leaves the index where it
+   stopped under its key; a later loop over the key with offset:continue starts there *)
+Theorem eval_loop_spec sq l st seg n st1 : eval_loop sq l st = Ok (seg, n, st1) ->
+  exists lim off cont,
+    match llimit l with None => lim = None | Some a => to_int_arg a = Ok (match lim with Some z => z | None => 0%Z end) /\ lim <> None end /\
+    match loffset l with
+    | OffNone => off = None /\ cont = false
+    | OffContinue => off = None /\ cont = true
+    | OffArg a => cont = false /\ exists z, to_int_arg a = Ok z /\ off = Some z
+    end /\
+    visit (iter_items sq (liter l)) (sget (lkey l) st) lim off cont (lrev l) = (seg, n, sget (lkey l) st1) /\
+    st1 = sset (lkey l) (sget (lkey l) st1) st.
+Proof.
+  unfold eval_loop. intro He.
+  destruct (llimit l) as [a|] eqn:El.
+  - destruct (to_int_arg a) as [z| |] eqn:Ea; cbn [bind] in He; try discriminate.
+    destruct (loffset l) as [| |b] eqn:Eo; cbn [bind fst snd] in He.
+    + destruct (visit _ _ _ _ _ _) as [[sg ln] stp] eqn:Ev. injection He as <- <- <-.
+      exists (Some z), None, false. rewrite sget_sset. repeat split; try assumption; discriminate.
+    + destruct (visit _ _ _ _ _ _) as [[sg ln] stp] eqn:Ev. injection He as <- <- <-.
+      exists (Some z), None, true. rewrite sget_sset. repeat split; try assumption; discriminate.
+    + destruct (to_int_arg b) as [zb| |] eqn:Eb; cbn [bind fst snd] in He; try discriminate.
+      destruct (visit _ _ _ _ _ _) as [[sg ln] stp] eqn:Ev. injection He as <- <- <-.
+      exists (Some z), (Some zb), false. rewrite sget_sset. repeat split; try assumption; try discriminate.
+      exists zb. split; reflexivity.
+  - cbn [bind] in He.
+    destruct (loffset l) as [| |b] eqn:Eo; cbn [bind fst snd] in He.
+    + destruct (visit _ _ _ _ _ _) as [[sg ln] stp] eqn:Ev. injection He as <- <- <-.
+      exists None, None, false. rewrite sget_sset. repeat split; assumption.
+    + destruct (visit _ _ _ _ _ _) as [[sg ln] stp] eqn:Ev. injection He as <- <- <-.
+      exists None, None, true. rewrite sget_sset. repeat split; assumption.
+    + destruct (to_int_arg b) as [zb| |] eqn:Eb; cbn [bind fst snd] in He; try discriminate.
+      destruct (visit _ _ _ _ _ _) as [[sg ln] stp] eqn:Ev. injection He as <- <- <-.
+      exists None, (Some zb), false. rewrite sget_sset. repeat split; try assumption.
+      exists zb. split; reflexivity.
+Qed.
+
+(* ------------------------------------------------------------------ *)
+(* parentloop, include and render                                      *)
+
+(* the loop stack: a for loop pushes its frame, a tablerow does not *)
+Lemma for_frames_for f fs : f_kind f = KFor -> for_frames (f :: fs) = f :: for_frames fs.
+Proof. intro H. unfold for_frames. cbn [filter]. rewrite H. reflexivity. Qed.
+Lemma for_frames_table f fs : f_kind f = KTable -> for_frames (f :: fs) = for_frames fs.
+Proof. intro H. unfold for_frames. cbn [filter]. rewrite H. reflexivity. Qed.
+
+(* forloop.parentloop. ... .h with [up] parentloops is the helper of the up-th enclosing FOR loop counted from the
+   innermost one (tablerow loops in between do not count); undefined -- nothing is printed -- when there are fewer *)
+Theorem helper_is_enclosing_for sq dis fuel fs st up h :
+  exec sq dis (S (S fuel)) fs st [BHelper up h] =
+  Ok (match nth_error (for_frames fs) up with Some f => helper_text f h | None => [] end, st, SNormal).
+Proof. cbn [exec exec_leaf bind]. rewrite app_nil_r. reflexivity. Qed.
+
+(* include: the partial's body runs with the same loop stack and the same continue positions, and its
+   break/continue reach the enclosing loop *)
+Theorem include_is_transparent sq fuel fs st b :
+  exec sq false (S (S fuel)) fs st [BInclude b] =
+  (do r <- exec sq false (S fuel) fs st b;
+   let '(out, st', sg) := r in
+   match sg with SNormal => Ok (out ++ [], st', SNormal) | _ => Ok (out, st', sg) end).
+Proof. cbn [exec]. reflexivity. Qed.
+
+(* render: the partial runs with an empty loop stack and no continue positions, whatever the caller's are, and
+   leaves the caller's continue positions as they were *)
+Theorem render_is_isolated sq dis fuel fs st b :
+  exec sq dis (S (S fuel)) fs st [BRender b] =
+  match exec sq true (S fuel) [] [] b with
+  | Ok (out, _, SNormal) => Ok (out ++ [], st, SNormal)
+  | Ok (_, _, _) => Err ESyntax
+  | Err e => Err e
+  | OutOfFuel => OutOfFuel
+  end.
+Proof.
+  remember (S fuel) as f1 eqn:Ef. cbn [exec].
+  destruct (exec sq true f1 [] [] b) as [[[out st'] sg]|e|]; cbn [bind]; try reflexivity.
+  destruct sg; try reflexivity. rewrite Ef. cbn [exec bind]. reflexivity.
+Qed.
+
+Corollary render_ignores_caller sq dis dis' fuel fs fs' st st' b out st1 sg :
+  exec sq dis (S (S fuel)) fs st [BRender b] = Ok (out, st1, sg) ->
+  exec sq dis' (S (S fuel)) fs' st' [BRender b] = Ok (out, st', sg) /\ st1 = st.
+Proof.
+  rewrite !render_is_isolated. destruct (exec sq true (S fuel) [] [] b) as [[[o s'] g]|e|]; try discriminate.
+  destruct g; try discriminate. intro H. injection H as <- <- <-. split; reflexivity.
+Qed.
+
+(* ------------------------------------------------------------------ *)
+(* break and continue, in for loops and in tablerow loops              *)
+
+Definition fframe (name : str) (x : str) (k n : Z) : frame :=
+  {| f_kind := KFor; f_item := x; f_h := forloop_at k n; f_tr := dummy_tr; f_ncols := 0; f_name := name |}.
+Definition tframe (x : str) (k n : Z) (t' : trstate) (ncols : Z) : frame :=
+  {| f_kind := KTable; f_item := x; f_h := forloop_at k n; f_tr := t'; f_ncols := ncols; f_name := [] |}.
+
+(* what a for loop writes when the body, run for the k-th item, writes [out] and ends with signal [sigf]:
+   the outputs in order, up to and including the first item whose body breaks *)
+Fixpoint fcells (out : frame -> str) (sigf : frame -> signal) (name : str) (items : list str) (k n : Z) : str :=
+  match items with
+  | [] => []
+  | x :: r =>
+      let f := fframe name x k n in
+      out f ++ match sigf f with SBreak => [] | _ => fcells out sigf name r (k + 1) n end
+  end.
+
+Lemma for_iter_general run fs name n out sigf :
+  (forall x k st, run (fframe name x k n :: fs) st = Ok (out (fframe name x k n), st, sigf (fframe name x k n))) ->
+  forall items k st acc, for_iter run fs name n items k st acc = Ok (acc ++ fcells out sigf name items k n, st, SNormal).
+Proof.
+  intros Hrun. induction items as [|x r IH]; intros k st acc.
+  - cbn. rewrite app_nil_r. reflexivity.
+  - cbn [fcells for_iter]. fold (fframe name x k n). rewrite Hrun. cbn [bind]. fold (for_iter run fs name n).
+    destruct (sigf (fframe name x k n)); try (rewrite IH, <- app_assoc; reflexivity).
+    rewrite app_nil_r. reflexivity.
+Qed.
+
+(* the same for tablerow: every cell is opened and closed, a row break follows the last column unless the item is
+   the last one, and a break takes effect only after the cell (and its row break) is written *)
+Fixpoint tcells (out : frame -> str) (sigf : frame -> signal) (items : list str) (k : Z) (t : trstate) (n ncols : Z) : str :=
+  match items with
+  | [] => []
+  | x :: r =>
+      let t' := tr_step ncols t in
+      let f := tframe x k n t' ncols in
+      td_open (tr_col t') ++ out f ++ td_close ++
+      (if ((tr_col t' =? ncols)%Z && negb (h_last (forloop_at k n)))%bool then row_break (tr_row t' + 1) else []) ++
+      match sigf f with SBreak => [] | _ => tcells out sigf r (k + 1) t' n ncols end
+  end.
+
+Lemma table_iter_general run fs n ncols out sigf :
+  (forall x k t' st, run (tframe x k n t' ncols :: fs) st = Ok (out (tframe x k n t' ncols), st, sigf (tframe x k n t' ncols))) ->
+  forall items k t st acc, table_iter run fs n ncols items k t st acc = Ok (acc ++ tcells out sigf items k t n ncols, st).
+Proof.
+  intros Hrun. induction items as [|x r IH]; intros k t st acc.
+  - cbn. rewrite app_nil_r. reflexivity.
+  - cbn [tcells table_iter]. fold (tframe x k n (tr_step ncols t) ncols). rewrite Hrun. cbn [bind].
+    fold (table_iter run fs n ncols).
+    destruct (sigf (tframe x k n (tr_step ncols t) ncols)).
+    + rewrite IH. f_equal. f_equal. rewrite <- !app_assoc. reflexivity.
+    + f_equal. f_equal. rewrite app_nil_r, <- !app_assoc. reflexivity.
+    + rewrite IH. f_equal. f_equal. rewrite <- !app_assoc. reflexivity.
+Qed.
+
+(* the probe bodies *)
+Definition leaf_print (f : frame) : str :=
+  match f_kind f with
+  | KFor => print_for (f_item f) (f_h f)
+  | KTable => print_table (f_item f) (f_h f) (f_tr f) (f_ncols f)
+  end.
+Definition no_sig (f : frame) : signal := SNormal.
+Definition break_at (j : Z) (f : frame) : signal := if (h_index (f_h f) =? j)%Z then SBreak else SNormal.
+Definition continue_at (j : Z) (f : frame) : signal := if (h_index (f_h f) =? j)%Z then SContinue else SNormal.
+Definition print_unless (j : Z) (f : frame) : str := if (h_index (f_h f) =? j)%Z then [] else leaf_print f.
+
+Lemma exec_leaf_print sq dis fuel f fs st :
+  exec sq dis (S (S fuel)) (f :: fs) st [BPrint] = Ok (leaf_print f, st, no_sig f).
+Proof. cbn [exec exec_leaf bind]. rewrite app_nil_r. reflexivity. Qed.
+
+Lemma exec_print_break sq dis fuel f fs st j :
+  exec sq dis (S (S (S fuel))) (f :: fs) st [BPrint; BBreakAt j] = Ok (leaf_print f, st, break_at j f).
+Proof.
+  cbn [exec exec_leaf bind]. unfold break_at. destruct (h_index (f_h f) =? j)%Z; cbn [bind app]; rewrite ?app_nil_r; reflexivity.
+Qed.
+
+Lemma exec_continue_print sq dis fuel f fs st j :
+  exec sq dis (S (S (S fuel))) (f :: fs) st [BContinueAt j; BPrint] = Ok (print_unless j f, st, continue_at j f).
+Proof.
+  cbn [exec exec_leaf bind]. unfold print_unless, continue_at. destruct (h_index (f_h f) =? j)%Z; cbn [bind app]; rewrite ?app_nil_r; reflexivity.
+Qed.
+
+(* a for loop around a probe body: evaluation of the loop expression, then the cells *)
+Lemma exec_for_general sq dis fuel (l : loopx) body els fs st seg n st1 out sigf :
+  eval_loop sq l st = Ok (seg, n, st1) -> n <> 0%Z ->
+  (forall x k st0, exec sq dis (S fuel) (fframe (lname l) x k n :: fs) st0 body =
+                   Ok (out (fframe (lname l) x k n), st0, sigf (fframe (lname l) x k n))) ->
+  exec sq dis (S (S fuel)) fs st [BFor l body els] = Ok (fcells out sigf (lname l) seg 0 n, st1, SNormal).
+Proof.
+  intros He Hn Hrun. remember (S fuel) as f1 eqn:Ef. cbn [exec]. rewrite He. cbn [bind].
+  destruct (Z.eqb_spec n 0) as [|_]; [contradiction|].
+  rewrite (for_iter_general _ fs (lname l) n out sigf Hrun). cbn [bind app].
+  rewrite Ef. cbn [exec bind]. rewrite app_nil_r. reflexivity.
+Qed.
+
+Lemma exec_table_general sq dis fuel (l : loopx) cols body fs st seg n st1 ncols out sigf :
+  eval_loop sq l st = Ok (seg, n, st1) ->
+  match cols with None => Ok n | Some a => int_or_zero a end = Ok ncols ->
+  (forall x k t' st0, exec sq dis (S fuel) (tframe x k n t' ncols :: fs) st0 body =
+                      Ok (out (tframe x k n t' ncols), st0, sigf (tframe x k n t' ncols))) ->
+  exec sq dis (S (S fuel)) fs st [BTablerow l cols body] =
+  Ok (table_head ++ tcells out sigf seg 0 tr_init n ncols ++ table_foot, st1, SNormal).
+Proof.
+  intros He Hc Hrun. remember (S fuel) as f1 eqn:Ef. cbn [exec]. rewrite He. cbn [bind]. rewrite Hc. cbn [bind].
+  rewrite (table_iter_general _ fs n ncols out sigf Hrun). cbn [bind app].
+  rewrite Ef. cbn [exec bind]. rewrite app_nil_r. reflexivity.
+Qed.
+
+(* break after the j-th item: exactly the first j items are written, with the helper values of the WHOLE loop *)
+Lemma fcells_break_prefix out name j n : forall items k, (k + 1 <= j)%Z ->
+  fcells out (break_at j) name items k n = fcells out no_sig name (firstn (Z.to_nat (j - k)) items) k n.
+Proof.
+  induction items as [|x r IH]; intros k Hk.
+  - rewrite firstn_nil. reflexivity.
+  - rewrite (to_nat_succ (j - k)) by lia. cbn [firstn fcells]. f_equal.
+    unfold break_at at 1, no_sig at 1. cbn [fframe f_h forloop_at h_index].
+    destruct (Z.eqb_spec (k + 1) j) as [E|E].
+    + replace (Z.to_nat (j - k - 1)) with O by lia. reflexivity.
+    + rewrite IH by lia. do 2 f_equal. lia.
+Qed.
+
+Lemma tcells_break_prefix out j n ncols : forall items k t, (k + 1 <= j)%Z ->
+  tcells out (break_at j) items k t n ncols = tcells out no_sig (firstn (Z.to_nat (j - k)) items) k t n ncols.
+Proof.
+  induction items as [|x r IH]; intros k t Hk.
+  - rewrite firstn_nil. reflexivity.
+  - rewrite (to_nat_succ (j - k)) by lia. cbn [firstn tcells]. do 4 f_equal.
+    unfold break_at at 1, no_sig at 1. cbn [tframe f_h forloop_at h_index].
+    destruct (Z.eqb_spec (k + 1) j) as [E|E].
+    + replace (Z.to_nat (j - k - 1)) with O by lia. reflexivity.
+    + rewrite IH by lia. do 2 f_equal. lia.
+Qed.
+
+(* a continue never ends the loop *)
+Lemma fcells_continue out name j : forall items k n,
+  fcells out (continue_at j) name items k n = fcells out no_sig name items k n.
+Proof.
+  induction items as [|x r IH]; intros k n; [reflexivity|].
+  cbn [fcells]. rewrite IH. unfold continue_at, no_sig. destruct (h_index _ =? j)%Z; reflexivity.
+Qed.
+
+Lemma tcells_continue out j : forall items k t n ncols,
+  tcells out (continue_at j) items k t n ncols = tcells out no_sig items k t n ncols.
+Proof.
+  induction items as [|x r IH]; intros k t n ncols; [reflexivity|].
+  cbn [tcells]. rewrite IH. unfold continue_at, no_sig. destruct (h_index _ =? j)%Z; reflexivity.
+Qed.
+
+(* without interrupts the for loop writes the probe line of every visited item (the earlier theorem) *)
+Lemma fcells_printed name : forall items k n, fcells leaf_print no_sig name items k n = printed items k n.
+Proof. induction items as [|x r IH]; intros k n; [reflexivity|]. cbn [fcells printed no_sig]. rewrite IH. reflexivity. Qed.
+
+Theorem for_break sq dis fuel (l : loopx) els fs st seg n st1 j :
+  eval_loop sq l st = Ok (seg, n, st1) -> n <> 0%Z -> (1 <= j)%Z ->
+  exec sq dis (S (S (S (S (S fuel))))) fs st [BFor l [BPrint; BBreakAt j] els] =
+  Ok (printed (firstn (Z.to_nat j) seg) 0 n, st1, SNormal).
+Proof.
+  intros He Hn Hj.
+  rewrite (exec_for_general sq dis _ l _ els fs st seg n st1 leaf_print (break_at j) He Hn)
+    by (intros; apply exec_print_break).
+  rewrite fcells_break_prefix by lia. rewrite Z.sub_0_r, fcells_printed. reflexivity.
+Qed.
+
+(* continue at the j-th item: every item is visited with its own helper values, the j-th writes nothing after the
+   continue tag *)
+Theorem for_continue sq dis fuel (l : loopx) els fs st seg n st1 j :
+  eval_loop sq l st = Ok (seg, n, st1) -> n <> 0%Z ->
+  exec sq dis (S (S (S (S (S fuel))))) fs st [BFor l [BContinueAt j; BPrint] els] =
+  Ok (fcells (print_unless j) no_sig (lname l) seg 0 n, st1, SNormal).
+Proof.
+  intros He Hn.
+  rewrite (exec_for_general sq dis _ l _ els fs st seg n st1 (print_unless j) (continue_at j) He Hn)
+    by (intros; apply exec_continue_print).
+  rewrite fcells_continue. reflexivity.
+Qed.
+
+(* tablerow *)
+Theorem tablerow_prints sq dis fuel (l : loopx) cols fs st seg n st1 ncols :
+  eval_loop sq l st = Ok (seg, n, st1) ->
+  match cols with None => Ok n | Some a => int_or_zero a end = Ok ncols ->
+  exec sq dis (S (S (S (S fuel)))) fs st [BTablerow l cols [BPrint]] =
+  Ok (table_head ++ tcells leaf_print no_sig seg 0 tr_init n ncols ++ table_foot, st1, SNormal).
+Proof.
+  intros He Hc. apply (exec_table_general sq dis _ l cols _ fs st seg n st1 ncols leaf_print no_sig He Hc).
+  intros. apply exec_leaf_print.
+Qed.
+
+(* break in a tablerow: the cell of the j-th item is completed and closed (with its row break), then the loop ends;
+   the table is closed as usual *)
+Theorem tablerow_break sq dis fuel (l : loopx) cols fs st seg n st1 ncols j :
+  eval_loop sq l st = Ok (seg, n, st1) ->
+  match cols with None => Ok n | Some a => int_or_zero a end = Ok ncols -> (1 <= j)%Z ->
+  exec sq dis (S (S (S (S (S fuel))))) fs st [BTablerow l cols [BPrint; BBreakAt j]] =
+  Ok (table_head ++ tcells leaf_print no_sig (firstn (Z.to_nat j) seg) 0 tr_init n ncols ++ table_foot, st1, SNormal).
+Proof.
+  intros He Hc Hj.
+  rewrite (exec_table_general sq dis _ l cols _ fs st seg n st1 ncols leaf_print (break_at j) He Hc)
+    by (intros; apply exec_print_break).
+  rewrite tcells_break_prefix by lia. rewrite Z.sub_0_r. reflexivity.
+Qed.
+
+(* continue in a tablerow: the cell is still closed and every later item still gets its cell *)
+Theorem tablerow_continue sq dis fuel (l : loopx) cols fs st seg n st1 ncols j :
+  eval_loop sq l st = Ok (seg, n, st1) ->
+  match cols with None => Ok n | Some a => int_or_zero a end = Ok ncols ->
+  exec sq dis (S (S (S (S (S fuel))))) fs st [BTablerow l cols [BContinueAt j; BPrint]] =
+  Ok (table_head ++ tcells (print_unless j) no_sig seg 0 tr_init n ncols ++ table_foot, st1, SNormal).
+Proof.
+  intros He Hc.
+  rewrite (exec_table_general sq dis _ l cols _ fs st seg n st1 ncols (print_unless j) (continue_at j) He Hc)
+    by (intros; apply exec_continue_print).
+  rewrite tcells_continue. reflexivity.
+Qed.
+
